@@ -15,7 +15,8 @@ THEOREMS = ["C11_dotted", "C11_history", "C11_loaded_stable", "C11_uninstalled",
 RULE = (
     "a generated package forest (siblings with common string prefixes foo / foobar / foo_bar / fo, nested "
     "sub-packages, modules importing each other) written to a scratch directory; random histories of "
-    "install(names, checker) / uninstall / with-block exit / import operations, each history on freshly "
+    "install(names, checker) / uninstall / with-block exit / import operations (a third of the installs repeat "
+    "the exact names and checker of a hook that is still installed), each history on freshly "
     "named copies of the forest; three spy typecheckers and None; observed: which modules' functions are "
     "instrumented and which spy decorated them, plus ill-typed calls; exhaustive should-instrument table "
     "over all (hook-name set of size <=2, module) pairs of the forest; the pytest option and the IPython "
@@ -83,12 +84,20 @@ def import_events(m):
 def gen_history(rng, length):
     ops = []
     live = []
+    specs = {}
     nid = 0
     for _ in range(length):
         r = rng.below(10)
         if r < 3:
-            names = rng.sample(HOOKABLE, rng.rng(1, 2))
-            ops.append({"op": "install", "names": names, "checker": rng.choice(["spy_a.check", "spy_b.check", "spy_c.check", None]), "id": nid})
+            if live and rng.chance(1, 3):
+                # the very same (names, typechecker) installed again while the first is still installed
+                # (a library's own __init__ and the application both asking for the hook)
+                names, checker = specs[rng.choice(live)]
+            else:
+                names = rng.sample(HOOKABLE, rng.rng(1, 2))
+                checker = rng.choice(["spy_a.check", "spy_b.check", "spy_c.check", None])
+            ops.append({"op": "install", "names": list(names), "checker": checker, "id": nid})
+            specs[nid] = (list(names), checker)
             live.append(nid)
             nid += 1
         elif r < 5 and live:
@@ -191,11 +200,21 @@ def run(tier, seed, out, drv, facts):
             for nm in ("spy_a", "spy_b", "spy_c"):
                 spies[nm] = importlib.import_module(nm)
             n = 600 if thorough else 80
-            for i in range(n):
+            directed = []
+            for chk in ("spy_a.check", None):
+                for first_out in (0, 1):
+                    # the same hook installed twice; one of the two goes away; the other must still claim
+                    directed.append([{"op": "install", "names": ["foo"], "checker": chk, "id": 0}, {"op": "install", "names": ["foo"], "checker": chk, "id": 1},
+                                     {"op": "import", "m": "foo"}, {"op": "uninstall", "id": first_out}, {"op": "import", "m": "foo.bar"},
+                                     {"op": "uninstall", "id": 1 - first_out}, {"op": "import", "m": "foo.baz.qux"}])
+                    # overlapping lifetimes of different hooks on nested names
+                    directed.append([{"op": "install", "names": ["pkg"], "checker": chk, "id": 0}, {"op": "install", "names": ["pkg.sub"], "checker": "spy_b.check", "id": 1},
+                                     {"op": "uninstall", "id": first_out}, {"op": "import", "m": "pkg.sub.foo"}, {"op": "import", "m": "pkg.foo"}])
+            for i in range(n + len(directed)):
                 prefix = f"h{seed}_{i}_"
                 write_forest(root, prefix)
                 importlib.invalidate_caches()
-                ops = gen_history(rng, rng.rng(3, 10))
+                ops = directed[i] if i < len(directed) else gen_history(rng, rng.rng(3, 10))
                 got = run_history(ops, prefix, spies)
                 want = model_history(drv, ops)
                 installs = [o for o in ops if o["op"] == "install"]
